@@ -442,6 +442,12 @@ class Spectrum:
         y = np.asarray(spectrum.value)
         y = y.astype(np.result_type(y.dtype, np.float64))
 
+        # (the query points likewise: an extended precision query, e.g. the common
+        # grid of an operand held in np.longdouble, is refused by the interpolator)
+        wave = np.asarray(wave)
+        if wave.dtype.kind == 'f':
+            wave = wave.astype(np.float64)
+
         def interp(values):
             return scipy.interpolate.interp1d(x, values, kind=method, copy=False,
                                               bounds_error=False,
